@@ -106,6 +106,9 @@ Section C18.
   Theorem C18_alias_run_inv am ops s : Inv s -> Inv (alias_run am ops s).
   Proof. exact (alias_run_inv pycast arrcast infer astype_dt itemseq_exn am ops s). Qed.
 
+  Theorem C18_alias_run_one_cell_per_period am ops s : Forall wf_key_op ops -> InvD s -> InvD (alias_run am ops s).
+  Proof. exact (alias_run_invD pycast arrcast infer astype_dt itemseq_exn am ops s). Qed.
+
   (* ---------------------------------------------------------------- no additional storage *)
   Theorem C18_alias_no_extra_storage am ops s k :
     In k (akeys (amap am)) -> assoc k (vars s) = None -> ~ In k (index s) ->
@@ -243,6 +246,7 @@ Print Assumptions C18_alias_op_eq_root_op.
 Print Assumptions C18_alias_run_twin.
 Print Assumptions C18_twin_ops_mention_no_alias.
 Print Assumptions C18_alias_run_inv.
+Print Assumptions C18_alias_run_one_cell_per_period.
 Print Assumptions C18_alias_no_extra_storage.
 Print Assumptions C18_run_index.
 Print Assumptions C18_alias_read_eq_root_read.
